@@ -1,3 +1,92 @@
-From Dawn Require Import Loader.Model Loader.Run.
-Theorem pipeline_placeholder : True. Proof. exact I. Qed.
-Print Assumptions pipeline_placeholder.
+(** C06 — Module loading is once-only, terminating and cycle-safe.  Statements only; proofs in Loader/*.v.
+    [loads m] = the load() statements of module file m, [roots] = the package files (one goroutine each);
+    [reachable] = reachable by any interleaving of the goroutines' critical sections; [final] = every
+    goroutine has finished; [execs] = modules whose file has been executed; [load_ok] = Project.load finds
+    no module error; [acyclic]/[cyclic] speak about the part of the load graph the packages reach. *)
+From Coq Require Import List Arith Bool.
+From Dawn Require Import Loader.Model Loader.Run Loader.Final.
+Import ListNotations.
+
+Theorem executed_at_most_once :
+  forall loads roots s, reachable loads roots s -> NoDup (execs s).
+Proof. exact t_executed_at_most_once. Qed.
+Print Assumptions executed_at_most_once.
+
+Theorem loader_deadlock_free :
+  forall loads roots s, reachable loads roots s -> ~ final s -> exists tid, step loads s tid <> None.
+Proof. exact t_deadlock_free. Qed.
+Print Assumptions loader_deadlock_free.
+
+Theorem acyclic_loads_succeed :
+  forall loads roots, acyclic loads roots ->
+  forall s, reachable loads roots s ->
+    (~ final s -> exists tid, step loads s tid <> None) /\
+    (final s ->
+       load_ok s = true /\
+       (forall m, In m (registry s) -> loaded (mods s m) = true /\ okres (mods s m) = true) /\
+       (forall m, In m (registry s) <-> from_roots loads roots m)).
+Proof. exact t_acyclic_succeed. Qed.
+Print Assumptions acyclic_loads_succeed.
+
+Theorem cyclic_loads_fail :
+  forall loads roots, cyclic loads roots ->
+  forall s, reachable loads roots s -> final s ->
+    load_ok s = false /\
+    exists m, In m (registry s) /\ loaded (mods s m) = true /\ okres (mods s m) = false.
+Proof. exact t_cyclic_fail. Qed.
+Print Assumptions cyclic_loads_fail.
+
+Theorem load_result_deterministic :
+  forall loads roots, acyclic loads roots ->
+  forall s1 s2, reachable loads roots s1 -> reachable loads roots s2 -> final s1 -> final s2 ->
+    load_ok s1 = true /\ load_ok s2 = true /\
+    (forall m, In m (registry s1) <-> In m (registry s2)) /\
+    (forall m, In m (execs s1) <-> In m (execs s2)).
+Proof. exact t_deterministic. Qed.
+Print Assumptions load_result_deterministic.
+
+(** Tests (exhaustive over ALL schedules of tiny configurations, by computation): [all_runs] explores every
+    interleaving; a stuck non-final state or a final state violating the predicate makes it false. *)
+
+(* two packages whose files load each other: every schedule ends, with an error, nothing executed twice *)
+Example test_two_cycle_all_schedules :
+  all_runs (loads_of [(0,[1]);(1,[0])]) 40 (fun s => negb (load_ok s) && nodupb (execs s)) (init [0;1]) = true.
+Proof. vm_compute. reflexivity. Qed.
+
+(* the acyclic F4 witness: two packages share helper 2, which itself loads 3: every schedule loads all four *)
+Example test_shared_helper_all_schedules :
+  all_runs (loads_of [(0,[2]);(1,[2]);(2,[3]);(3,[])]) 60
+           (fun s => all_loaded_ok s && nodupb (execs s) && Nat.eqb (length (registry s)) 4) (init [0;1]) = true.
+Proof. vm_compute. reflexivity. Qed.
+
+(* a cycle 1 <-> 2 entered through a tail by one package and directly by another *)
+Example test_cycle_with_tail_all_schedules :
+  all_runs (loads_of [(0,[1]);(1,[2]);(2,[1])]) 60 (fun s => negb (load_ok s)) (init [0;2]) = true.
+Proof. vm_compute. reflexivity. Qed.
+
+(* a file that loads itself *)
+Example test_self_load :
+  all_runs (loads_of [(0,[0])]) 20 (fun s => negb (load_ok s)) (init [0]) = true.
+Proof. vm_compute. reflexivity. Qed.
+
+(* the hypotheses of the theorems are satisfiable, and the tests can fail: expecting success on a cycle is refuted *)
+Example test_expectation_can_fail :
+  all_runs (loads_of [(0,[1]);(1,[0])]) 40 load_ok (init [0;1]) = false.
+Proof. vm_compute. reflexivity. Qed.
+
+Example acyclic_satisfiable : acyclic (loads_of [(0,[1]);(1,[])]) [0].
+Proof.
+  intros m [r [[<-|[]] Hm]] Hc.
+  assert (H : forall a b, gplus (loads_of [(0,[1]);(1,[])]) a b -> a = 0 /\ b = 1).
+  { intros a b G. induction G.
+    - destruct a as [|[|a]]; cbn in H; intuition.
+    - destruct a as [|[|a]]; cbn in H; intuition; subst; discriminate. }
+  destruct (H _ _ Hc) as [-> E]. discriminate.
+Qed.
+
+Example cyclic_satisfiable : cyclic (loads_of [(0,[1]);(1,[0])]) [0].
+Proof.
+  exists 0. split.
+  - exists 0. split; [left|left]; reflexivity.
+  - apply gp_cons with (b := 1); [cbn; auto|apply gp_one; cbn; auto].
+Qed.
